@@ -331,7 +331,8 @@ public:
 	if (!old_v) {
 	  _tree.remove(k);
 	} else {
-	  _tree.insert(k, *old_v | v);
+	  // the join can be top, which must not be stored in the tree
+	  set(k, *old_v | v);
 	}
       }
     }
